@@ -35,6 +35,9 @@ type C10Scn struct {
 	Probes   []C10Probe  `json:"probes"`
 	NextHops []int       `json:"nexthops,omitempty"` // adversarial part: node i forwards the phantom destination to its (NextHops[i] mod deg)-th neighbour
 	Injects  []C10Inject `json:"injects,omitempty"`
+	// TightHops: every node's maximum hop count is N-1, the longest loop-free route the mesh can have, instead of 30: routes
+	// exactly as long as the maximum exist (end to end of a chain) and none is longer, so all the other expectations stay as they are
+	TightHops bool `json:"tight,omitempty"`
 }
 
 const c10Phantom = "zz"
@@ -52,6 +55,9 @@ func execC10(b []byte) vx.Verdict {
 	}
 	opts := vx.DefaultNodeOpts()
 	opts.MaxHops = 30
+	if s.TightHops && s.N >= 2 {
+		opts.MaxHops = byte(s.N - 1)
+	}
 	m := vx.NewMesh(opts)
 	defer m.Close()
 	names := make([]string, s.N)
